@@ -26,7 +26,7 @@ try:
 except ImportError:          # pragma: no cover
     KNOWN_GLOBALS = {}
 
-MAX_ROWS = 16
+MAX_ROWS = 24
 
 
 def _literal(node) -> bool:
@@ -135,6 +135,14 @@ def new_tables(mod):
                     tables[nm] = v
                 elif isinstance(v, ast.Dict) and 0 < len(v.keys) <= MAX_ROWS and all(isinstance(k, ast.Constant) for k in v.keys):
                     tables[nm] = v
+                elif not prefix and isinstance(v, ast.Call) and isinstance(v.func, ast.Name) and v.func.id in mod.funcs:
+                    # a table computed at import time by a function of this module from literals only (sa/miniinterp.py)
+                    from .miniinterp import evaluate_call
+                    lit = evaluate_call(mod.tree, v)
+                    if isinstance(lit, (ast.Tuple, ast.List)) and 0 < len(lit.elts) <= MAX_ROWS and all(_literal(e) for e in lit.elts):
+                        tables[nm] = lit
+                    elif isinstance(lit, ast.Dict) and 0 < len(lit.keys) <= MAX_ROWS and all(isinstance(k, ast.Constant) for k in lit.keys):
+                        tables[nm] = lit
                 elif isinstance(v, ast.Call) and isinstance(v.func, (ast.Name, ast.Attribute)) and \
                         (v.func.id if isinstance(v.func, ast.Name) else v.func.attr) == "namedtuple" and len(v.args) == 2:
                     f = v.args[1]
@@ -287,6 +295,9 @@ class Folder(ast.NodeTransformer):
 
     # ---- which table does an expression name?
     def table_of(self, node):
+        if isinstance(node, (ast.Tuple, ast.List)) and getattr(node, "_written_in", False) and 0 < len(node.elts) <= MAX_ROWS \
+                and all(_literal(e) for e in node.elts):
+            return node                                  # the literal a computed call was replaced by
         if isinstance(node, ast.Name) and node.id in self.tables:
             return self.tables[node.id]
         if isinstance(node, ast.Attribute) and isinstance(node.value, ast.Name) and self.cls and node.value.id in ("self", "cls", self.cls):
@@ -486,6 +497,14 @@ class Folder(ast.NodeTransformer):
     def visit_Attribute(self, node):
         self.generic_visit(node)
         v = node.value
+        if isinstance(node.ctx, ast.Load) and isinstance(v, ast.Call) and isinstance(v.func, ast.Name) and v.func.id == "slice" and not v.keywords \
+                and node.attr in ("start", "stop", "step") and 1 <= len(v.args) <= 3 and getattr(v, "_written_in", False):
+            # slice(a, b).stop of a row written in
+            args = [ast.Constant(None), v.args[0], ast.Constant(None)] if len(v.args) == 1 else list(v.args) + [ast.Constant(None)] * (3 - len(v.args))
+            new = copy.deepcopy(args[("start", "stop", "step").index(node.attr)])
+            new._written_in = True
+            self.changed = True
+            return ast.copy_location(new, node)
         if isinstance(node.ctx, ast.Load) and isinstance(v, ast.Call) and isinstance(v.func, ast.Name) and v.func.id in self.rows and not v.keywords:
             fields = self.rows[v.func.id]
             if node.attr in fields and fields.index(node.attr) < len(v.args):
@@ -569,19 +588,69 @@ def _search_with_tail(stmts, folder):
     return stmts
 
 
+class _Computed(ast.NodeTransformer):
+    """helper(TABLE) for a helper today's tree does not have, a function of literals only: the literal it returns (sa/miniinterp.py)."""
+    def __init__(self, mod):
+        from .inline import KNOWN
+        self.mod = mod
+        self.known = set(KNOWN.get(mod.rel, ())) if mod.rel in KNOWN else None
+        self.changed = False
+
+    def visit_Call(self, node):
+        self.generic_visit(node)
+        if self.known is None or not isinstance(node.func, ast.Name) or node.func.id not in self.mod.funcs or node.func.id in self.known:
+            return node
+        from .miniinterp import evaluate_call
+        lit = evaluate_call(self.mod.tree, node)
+        if lit is None or not isinstance(lit, (ast.Tuple, ast.List, ast.Dict)):
+            return node
+        lit._written_in = True
+        if isinstance(lit, (ast.Tuple, ast.List)):
+            lit.elts and all(True for _ in lit.elts)
+        self.changed = True
+        return ast.copy_location(lit, node)
+
+
+def _local_tables(fn):
+    """{name: literal} for locals bound once (at the top level of the body) to a literal a computed call was replaced by, and only read."""
+    stores = {}
+    for n in ast.walk(fn):
+        if isinstance(n, ast.Name) and isinstance(n.ctx, (ast.Store, ast.Del)):
+            stores[n.id] = stores.get(n.id, 0) + 1
+    out = {}
+    for st in fn.body:
+        if isinstance(st, ast.Assign) and len(st.targets) == 1 and isinstance(st.targets[0], ast.Name) and stores.get(st.targets[0].id) == 1 \
+                and getattr(st.value, "_written_in", False) and isinstance(st.value, (ast.Tuple, ast.List)) \
+                and 0 < len(st.value.elts) <= MAX_ROWS and all(_literal(e) for e in st.value.elts):
+            out[st.targets[0].id] = st.value
+    return out
+
+
 def fold_tables(mod, qual, fn):
     """fn with the tables a refactoring introduced read back into it (a copy; fn itself when nothing applies)."""
     tables, rows = new_tables(mod)
+    computed = False
+    if any(isinstance(n, ast.Call) and isinstance(n.func, ast.Name) and n.func.id in mod.funcs for n in ast.walk(fn)):
+        comp = _Computed(mod)
+        if comp.known is not None and any(isinstance(n, ast.Call) and isinstance(n.func, ast.Name) and n.func.id in mod.funcs
+                                          and n.func.id not in comp.known for n in ast.walk(fn)):
+            work0 = comp.visit(copy.deepcopy(fn))
+            if comp.changed:
+                computed = True
+                fn = ast.fix_missing_locations(work0)
+                local = _local_tables(fn)
+                if local:
+                    tables = {**tables, **local}
     local = {n.id for n in ast.walk(fn) if isinstance(n, ast.Name) and isinstance(n.ctx, (ast.Store, ast.Del))} | \
         {a.arg for a in ast.walk(fn) if isinstance(a, ast.arg)}
     scalars = {k: v for k, v in new_scalars(mod).items() if k not in local}
     used = {n.id for n in ast.walk(fn) if isinstance(n, ast.Name)}
     scalars = {k: v for k, v in scalars.items() if k in used}
-    if not tables and not rows and not scalars:
+    if not tables and not rows and not scalars and not computed:
         return fn, False
     cls = qual.rsplit(".", 1)[0] if "." in qual else None
     names = {n.id for n in ast.walk(fn) if isinstance(n, ast.Name)} | {n.attr for n in ast.walk(fn) if isinstance(n, ast.Attribute)}
-    if not ({k.split(".")[-1] for k in tables} | set(rows)) & names:
+    if not ({k.split(".")[-1] for k in tables} | set(rows)) & names and not computed:
         if not scalars:
             return fn, False
         work = _Scalars(scalars).visit(copy.deepcopy(fn))
@@ -604,7 +673,7 @@ def fold_tables(mod, qual, fn):
         work = sc.visit(work)
         any_change = any_change or sc.changed
     if not any_change:
-        return fn, False
+        return fn, computed
     work.body = _hoist(work.body)
     ast.fix_missing_locations(work)
     return work, True
